@@ -116,6 +116,7 @@ FIXED = [
     {"type": "object", "properties": {"b": {"type": "object"}}, "minProperties": 1}, {"type": "object", "required": ["a"]},
     {"type": "boolean", "enum": [1, "a", None]}, {"allOf": [{"type": "boolean"}, {"type": "integer", "maximum": 0}]},
     {"allOf": [{"type": "object", "properties": {"name": {}}, "required": ["name"], "additionalProperties": {}}, {"type": "object", "properties": {"copy": {"type": "boolean"}}}]},
+    {"type": "integer", "anyOf": [{"minimum": 5}, {"maximum": 0}]}, {"type": "integer", "allOf": [{"minimum": 5}]}, {"type": "number", "format": "date-time"},
 ]
 
 
@@ -275,7 +276,7 @@ def main():
     for t in res.tagged("VIOL"):
         r = byid[t[1]]
         ck.violation(scenario_key(r, t[2]), t[2], r)
-    ck.rule = ("schemas = 41 fixed + a grid of every numeric / length / count keyword x two bounds (all instances, which hold bound - 1, bound, "
+    ck.rule = ("schemas = 44 fixed + a grid of every numeric / length / count keyword x two bounds (all instances, which hold bound - 1, bound, "
                "bound + 1) + random compositions (depth 1-3) of the supported keywords, typed and untyped, with 21 property names incl. "
                "Python keywords, non-identifiers, mapping-method names and names colliding after sanitising; instances = 50 JSON values (22 sampled per "
                "schema in the quick tier) converted under no_explicit_cast + no_data_loss; distinct_nontrivial = distinct schemas built and distinct "
@@ -384,6 +385,10 @@ CONSTRAINT_KWS = {"minimum", "maximum", "exclusiveMinimum", "exclusiveMaximum", 
 def cause_of_unsound(s):
     """primary cause class of an unsound built type, computed from the schema alone (finite)"""
     subs = [x for x in walk(s) if isinstance(x, dict)]
+    if any("type" in x and any(k in x for k in ("anyOf", "allOf", "oneOf")) for x in subs):
+        return "combinator-beside-type"
+    if any(x.get("type") in ("integer", "number", "boolean") and "format" in x for x in subs):
+        return "format-of-another-type"
     if has_untyped_constraint(s):
         return "untyped-constraint"
     if any(("const" in x or "enum" in x) and (CONSTRAINT_KWS & set(x)) for x in subs):
